@@ -1,5 +1,6 @@
 use crate::dlt::{
     parse_dlt_with_serial_header, parse_dlt_with_storage_header, DltMessage, DltMessageIndexType,
+    MIN_DLT_MSG_SIZE,
 };
 use slog::debug;
 use std::io::BufRead;
@@ -39,7 +40,9 @@ where
         loop {
             // default search with storage header
             if !self.detected_serial_header {
-                match parse_dlt_with_storage_header(self.index, self.reader.fill_buf().unwrap()) {
+                let data = self.reader.fill_buf().unwrap();
+                let avail = data.len();
+                match parse_dlt_with_storage_header(self.index, data) {
                     Ok((res, msg)) => {
                         self.reader.consume(res);
                         self.bytes_processed += res;
@@ -60,9 +63,9 @@ where
                               // we loop here again
                         }
                         _ => {
-                            if self.detected_storage_header {
-                                break;
-                            } // else not enough data for a msg with storage header but there might be a (shorter) one with serial header
+                            if self.detected_storage_header || avail >= MIN_DLT_MSG_SIZE {
+                                break; // an incomplete msg with storage header
+                            } // else not enough data for any msg with storage header but there might be a (shorter) one with serial header
                         }
                     },
                 }
